@@ -10,9 +10,6 @@ import (
 
 // Helpers shared by the ring harnesses.
 
-// vfEpoch is the start of the virtual clock (and of a synctest bubble).
-const vfEpoch = int64(946684800)
-
 var vfIDs = []string{"i0", "i1", "i2", "i3", "i4", "i5"}
 var vfZones = []string{"a", "b", "c", "d"}
 
